@@ -54,6 +54,7 @@ pub fn walk<F: Fn(&str) + Sync>(sigma: &[&str], n: usize, f: F) -> u64 {
         let maxd = n - pre.len();
         // iterative DFS: visit node, then children
         fn rec<F: Fn(&str)>(sigma: &[&str], buf: &mut String, depth: usize, maxd: usize, f: &F, local: &mut u64) {
+            crate::report::beat();
             f(buf);
             *local += 1;
             if depth == maxd {
@@ -207,6 +208,7 @@ pub struct BCounters {
 }
 
 pub fn check_c05(s: &str, sink: &Sink, c: &BCounters, family: &str) {
+    crate::report::beat();
     c.strings.fetch_add(1, AO::Relaxed);
     // a different history first: a sibling text (same version, other build metadata / spelling)
     let d = recognise(s);
@@ -457,6 +459,7 @@ pub fn run_c05(tier: &str, sink: &Sink) -> BOut {
 // ------------------------------------------------------------------- C12 ---
 
 pub fn check_c12_value(v: &Version, origin: &str, sink: &Sink) {
+    crate::report::beat();
     let case = || json!({"engine":"B","kind":"version-value","major":v.major,"minor":v.minor,"patch":v.patch,"pre":ids_text(&v.pre_release),"build":ids_text(&v.build),"origin":origin});
     let key = format!("origin={:?}|v={}", origin, vtext_full(v));
     let Ok(t) = guarded(|| v.to_string()) else {
@@ -610,6 +613,7 @@ fn expected_location(input: &str, offset: usize) -> ((usize, usize), (usize, usi
 
 /// All accessor / diagnostic clauses on one error. `render` = also run the report handler.
 pub fn check_error(which: &str, input: &str, e: &SemverError, render: bool, sink: &Sink, c: &BCounters) {
+    crate::report::beat();
     let case = || json!({"engine":"B","kind":"error","parser":which,"input":input,"render":render});
     let key = |w: &str| format!("parser={}|input={:?}|{}", which, input, w);
     if e.input() != input {
